@@ -900,6 +900,10 @@ func (env *specEnv) call(x *SCall) SV {
 			env.fail("unknown interface %s", name)
 		}
 		return SV{T: e.implementsPred(v.T, it), Sort: "Bool"}
+	case "deref":
+		// deref(v, "T"): the T-typed cell designated by pointer v (or by the pointer boxed in interface v)
+		l := env.derefLoc(x)
+		return SV{T: e.load(env.cur, l), Sort: e.sortOf(l.Typ), GT: l.Typ}
 	case "update":
 		a, i, v := arg(0), arg(1), arg(2)
 		if !strings.HasPrefix(a.Sort, "(Array ") {
@@ -1024,4 +1028,43 @@ func (e *Enc) typeInv(env *specEnv, v SV, labels map[string]bool, only bool) Ter
 		cs = append(cs, ne.evalBool(cl.Expr))
 	}
 	return tAnd(cs...)
+}
+
+// parseTypeName understands "[]byte", "[]T", "*T", basic names and "pkg/path.Name".
+func (w *World) parseTypeName(name string) types.Type {
+	name = strings.TrimSpace(name)
+	switch {
+	case strings.HasPrefix(name, "[]"):
+		if el := w.parseTypeName(name[2:]); el != nil {
+			return types.NewSlice(el)
+		}
+		return nil
+	case strings.HasPrefix(name, "*"):
+		if el := w.parseTypeName(name[1:]); el != nil {
+			return types.NewPointer(el)
+		}
+		return nil
+	}
+	return w.lookupType(name)
+}
+
+func (env *specEnv) derefLoc(x *SCall) *Loc {
+	if len(x.Args) != 2 {
+		env.fail("deref(v, \"T\") needs two arguments")
+	}
+	v := env.eval(x.Args[0])
+	lit, ok := x.Args[1].(*SLit)
+	if !ok || lit.Kind != "string" {
+		env.fail("deref needs a type name string")
+	}
+	name, _ := strconv.Unquote(lit.Val)
+	t := env.e.W.parseTypeName(name)
+	if t == nil {
+		env.fail("deref: unknown type %s", name)
+	}
+	ref := v.T
+	if v.Sort == "Iface" {
+		ref = sx("i-val", v.T)
+	}
+	return env.e.refLoc(ref, t)
 }
